@@ -42,7 +42,8 @@ fn rebuild<const N: usize>(s: &St) -> AsyncFixedBuf<N> {
 
 #[derive(Clone)]
 enum Op {
-    PollRead(usize, usize),
+    /// prefill, remaining capacity, and how many of the unfilled bytes are initialised beforehand (None = all: ReadBuf::new)
+    PollRead(usize, usize, Option<usize>),
     PollWrite(Vec<u8>),
     PollFlush,
     PollShutdown,
@@ -58,10 +59,17 @@ fn apply<const N: usize>(b: &mut AsyncFixedBuf<N>, s: &St, op: &Op, w: &mut impl
     let mut cx = Context::from_waker(&wk);
     let pre = format!("{} {} {} {}", N, hex(&s.mem), s.ri, s.wi);
     match op {
-        Op::PollRead(p, c) => {
+        Op::PollRead(p, c, init) => {
             let mut storage = vec![0x2eu8; p + c];
-            let mut rb = ReadBuf::new(&mut storage);
+            let mut ustorage = vec![std::mem::MaybeUninit::<u8>::uninit(); p + c];
+            let mut rb = match init {
+                None => ReadBuf::new(&mut storage),
+                Some(_) => ReadBuf::uninit(&mut ustorage),
+            };
             rb.put_slice(&vec![0x50u8; *p]);
+            if let Some(i) = init {
+                rb.initialize_unfilled_to((*i).min(*c));
+            }
             let r = std::panic::catch_unwind(std::panic::AssertUnwindSafe(|| Pin::new(&mut *b).poll_read(&mut cx, &mut rb)));
             let res = match r {
                 Ok(Poll::Ready(Ok(()))) => format!("ok {}", hex(rb.filled())),
@@ -70,7 +78,10 @@ fn apply<const N: usize>(b: &mut AsyncFixedBuf<N>, s: &St, op: &Op, w: &mut impl
                 Err(_) => format!("panic {}", hex(rb.filled())),
             };
             let s2 = observe(b);
-            writeln!(w, "AP {} | pr {} {} | {} | {}", pre, p, c, res, full(&s2)).unwrap();
+            match init {
+                None => writeln!(w, "AP {} | pr {} {} | {} | {}", pre, p, c, res, full(&s2)).unwrap(),
+                Some(i) => writeln!(w, "AP {} | pr {} {} {} | {} | {}", pre, p, c, i, res, full(&s2)).unwrap(),
+            }
             s2
         }
         Op::PollWrite(d) => {
@@ -147,7 +158,11 @@ fn explore<const N: usize>(w: &mut impl std::io::Write) -> (usize, usize) {
         let mut ops = vec![Op::PollFlush, Op::PollShutdown, Op::ReadAll, Op::Shift, Op::Clear];
         for p in 0..=2 {
             for c in 0..=N + 1 {
-                ops.push(Op::PollRead(p, c));
+                ops.push(Op::PollRead(p, c, None));
+                ops.push(Op::PollRead(p, c, Some(0)));
+                if c > 1 {
+                    ops.push(Op::PollRead(p, c, Some(1)));
+                }
             }
         }
         for d in strings(&alpha, (N + 1).min(3)) {
@@ -184,8 +199,14 @@ fn grid<const N: usize>(w: &mut impl std::io::Write) -> usize {
             let s = St { mem: mem.clone(), ri, wi, rd: mem[ri..wi].to_vec(), e: ri == wi };
             let mut ops = vec![Op::PollFlush, Op::PollShutdown, Op::Shift];
             for p in [0usize, 1, 3] {
-                for c in [0usize, 1, len.saturating_sub(1), len, len + 1, 9, 16] {
-                    ops.push(Op::PollRead(p, c));
+                for c in [0usize, 1, len.saturating_sub(1), len, len + 1, 9, 16, 40] {
+                    ops.push(Op::PollRead(p, c, None));
+                    // uninitialised and partially initialised ReadBufs (ReadBuf::uninit + initialize_unfilled_to)
+                    for i in [0usize, 1, c / 2, c.saturating_sub(1)] {
+                        if i <= c {
+                            ops.push(Op::PollRead(p, c, Some(i)));
+                        }
+                    }
                 }
             }
             for k in [0usize, 1, free.saturating_sub(1), free, free + 1] {
